@@ -15,7 +15,13 @@ for id in $ids; do
   git -C /repo apply "$PWD/$d/patch.diff" || { echo "$id: patch does not apply"; continue; }
   res=""
   for p in $prop $others; do
-    out=$(timeout 1500 ./check "$p" --tier quick 2>&1); rc=$?
+    if [ -n "${HARNESS_DIR:-}" ]; then
+      # a frozen copy of the harness (so that work on /verif/harness can go on meanwhile), rebuilt against the mutated /repo
+      (cd "$HARNESS_DIR" && CARGO_NET_OFFLINE=true cargo build --release --offline >/dev/null 2>&1)
+      out=$(cd "$VERIF_DIR" && timeout 1500 "$HARNESS_DIR/target/release/vharness" "$p" --tier quick --no-evidence 2>&1); rc=$?
+    else
+      out=$(timeout 1500 ./check "$p" --tier quick 2>&1); rc=$?
+    fi
     kind=$(echo "$out" | grep -E "^  kind=" | head -1 | sed -E 's/^  kind=([^ ]+).*/\1/')
     if echo "$out" | grep -q "^VIOLATION"; then res="$res $p:VIOLATION($kind)"; else res="$res $p:silent(rc=$rc)"; fi
   done
@@ -30,4 +36,4 @@ PY
 done
 # evidence files were rewritten by runs on a mutated tree: regenerate them on the unchanged tree afterwards
 echo "NOTE: re-run the quick checks on the unchanged tree to regenerate evidence/*.json"
-(cd /verif/harness && cargo build --release --offline >/dev/null 2>&1)
+[ -z "${HARNESS_DIR:-}" ] && (cd /verif/harness && cargo build --release --offline >/dev/null 2>&1)
